@@ -79,7 +79,15 @@ class Gen16:
                 self.feats.add("for" + ("+idx" if idx else ""))
                 if len(items) != 1 or depth > 0:
                     self.nontrivial = True
+                if r.random() < 0.4:
+                    # the loop's variable names are already defined when it starts ...
+                    out.append(("raw", '<var %s="9"%s/>' % (var, (' %s="8"' % idx) if idx else "")))
+                    self.feats.add("for.var-predefined")
                 out.append(("for", items, var, idx, self.block(depth + 1, env_names + [var] + ([idx] if idx else []), budget)))
+                if r.random() < 0.5:
+                    # ... and read after it: they keep the last item / index, as after the unrolled assignments
+                    out.append(("raw", '<text xy="^|v 1" text="after[$%s%s]"/>' % (var, ("|$" + idx) if idx else "")))
+                    self.feats.add("for.var-read-after")
             else:
                 budget[0] -= 1
                 out.append(self.cond(depth, env_names, budget))
